@@ -38,7 +38,8 @@ theorem basic_of_touched (cfg : Cfg) {w w' : World α} {c : Nat} {P : Nat → Na
 theorem Strong.basic {cfg : Cfg} {w w' : World α} {c : Nat} (hs : Strong w w') (hl : Ledger w) (hv : VecOK cfg w c) :
     Basic cfg w w' c := by
   refine ⟨hs.vecOK hl hv, hs.led, hs.ub, ?_⟩
-  refine ⟨fun d _ => by rw [hs.hdr], by rw [hs.hdr], by rw [hs.hdr], ?_, hs.owner, hs.next, Or.inl (by rw [hs.hdr])⟩
+  refine ⟨fun d _ => by rw [hs.hdr], by rw [hs.hdr], by rw [hs.hdr], ?_, hs.owner, hs.next, Or.inl (by rw [hs.hdr]),
+          LiveAcc.of_same hl hv hs.live (by rw [hs.hdr])⟩
   intro b _ _ h3 h4
   exact hs.mem b h3 h4
 
@@ -141,12 +142,13 @@ theorem eraseLast_sat (cfg : Cfg) (c : Nat) (w : World α) (hv : VecOK cfg w c) 
   rw [hslot _ i (by intro h; injection h with _ h; omega), hxv i (by omega)]
   simp [List.getElem_dropLast]
 
-theorem Basic.trans {cfg : Cfg} {a b d : World α} {c : Nat} (h1 : Basic cfg a b c) (h2 : Basic cfg b d c) : Basic cfg a d c :=
-  ⟨h2.vec, h2.led, h2.ub.trans h1.ub, h1.frame.trans h2.frame⟩
+theorem Basic.trans {cfg : Cfg} {a b d : World α} {c : Nat} (hl : Ledger a) (hv : VecOK cfg a c)
+    (h1 : Basic cfg a b c) (h2 : Basic cfg b d c) : Basic cfg a d c :=
+  ⟨h2.vec, h2.led, h2.ub.trans h1.ub, Frame1.trans hl hv h1.frame h2.frame⟩
 
-theorem Shrunk.trans {cfg : Cfg} {a b d : World α} {c : Nat} {f g : List (Val α) → List (Val α)}
+theorem Shrunk.trans {cfg : Cfg} {a b d : World α} {c : Nat} {f g : List (Val α) → List (Val α)} (hl : Ledger a) (hv : VecOK cfg a c)
     (h1 : Shrunk cfg a b c f) (h2 : Shrunk cfg b d c g) : Shrunk cfg a d c (g ∘ f) :=
-  ⟨h1.basic.trans h2.basic, fun xs hx => h2.holds _ (h1.holds xs hx), h2.data.trans h1.data, h2.cap.trans h1.cap,
+  ⟨Basic.trans hl hv h1.basic h2.basic, fun xs hx => h2.holds _ (h1.holds xs hx), h2.data.trans h1.data, h2.cap.trans h1.cap,
    h2.alloc.trans h1.alloc, h2.noalloc.1.trans h1.noalloc.1, h2.noalloc.2.trans h1.noalloc.2⟩
 
 /-- every valid container holds some list -/
@@ -258,7 +260,7 @@ theorem eraseRange_sat (cfg : Cfg) (c first last : Nat) (w : World α) (hv : Vec
       have hte := eraseToEnd_sat cfg c (first + ((w.hdr c).size - last)) w1 hb1.vec hb1.led (by rw [hh1]; omega)
       refine sat_bind hte (fun _ w2 hs2 => ?_) (fun _ _ h => h.elim)
       show first = first ∧ _
-      refine ⟨rfl, hb1.trans hs2.basic, ?_, by rw [hs2.data, hh1], by rw [hs2.cap, hh1], by rw [hs2.alloc, hh1],
+      refine ⟨rfl, Basic.trans hl hv hb1 hs2.basic, ?_, by rw [hs2.data, hh1], by rw [hs2.cap, hh1], by rw [hs2.alloc, hh1],
               by rw [hs2.noalloc.1, ht1.ctl.next], by rw [hs2.noalloc.2, ht1.ctl.live]⟩
       intro xs hx
       -- the intermediate contents
@@ -319,7 +321,7 @@ theorem eraseAt_sat (cfg : Cfg) (c pos : Nat) (w : World α) (hv : VecOK cfg w c
     have hh1 : w1.hdr = w.hdr := ht1.ctl.hdr
     refine sat_bind (eraseLast_sat cfg c w1 hb1.vec hb1.led (by rw [hh1]; omega)) (fun _ w2 hs2 => ?_) (fun _ _ h => h.elim)
     show pos = pos ∧ _
-    refine ⟨rfl, hb1.trans hs2.basic, ?_, by rw [hs2.data, hh1], by rw [hs2.cap, hh1], by rw [hs2.alloc, hh1],
+    refine ⟨rfl, Basic.trans hl hv hb1 hs2.basic, ?_, by rw [hs2.data, hh1], by rw [hs2.cap, hh1], by rw [hs2.alloc, hh1],
             by rw [hs2.noalloc.1, ht1.ctl.next], by rw [hs2.noalloc.2, ht1.ctl.live]⟩
     intro xs hx
     obtain ⟨ys, hy⟩ := hb1.vec.holds_exists
